@@ -9,13 +9,17 @@
   * `gap_one`, `log_gap`                           : a finite Decimal other than 1 has `|ln| ≥ 10^-36`
   * `log_at_one`                                   : `log` of the value 1 returns the significand 0
   * `mul_rel`                                      : `mul` is accurate to relative `2·10^-57`
+  * `generalS`, `general_eq`                       : `PowPf.general` with the guards as integer comparisons
+  * `genAfterLog`, `genAfterMul`, `genAfterEpow`   : its continuations; `generalS_eq`
+  * `gS_log`, `gAL_*`, `gAM_*`, `gAE_*`, `outV_ok`  : its value once `log`, `mul`, `epow` are known
+    (NB: never close such goals by `rfl`: the kernel would evaluate `Nat.decEq (… * 2^128) 0` by unfolding `Nat.mul`)
 -/
 import D128.Proofs.PowAccTail
 import D128.Proofs.PowAccLog
 import D128.Proofs.PowAccEpow
 import D128.Proofs.WordsWidePow10
 set_option autoImplicit false
-set_option maxRecDepth 4096
+set_option maxRecDepth 8192
 
 namespace PowAcc
 open Gen D192 Spec SpecRound EnclPf ExpAcc LogAcc PowPf RK
@@ -247,5 +251,170 @@ theorem mul_rel (d o : decomposed192) (t : Int8)
   · by_cases hc : val r = val d * val o
     · left; exact h3 hc
     · right; exact h4 hc
+
+/-! ## the staged form of the general path -/
+
+/-- the early-out of the general path -/
+def outV (neg sgn : Bool) : Go.GoM Decimal := if sgn = true then pure (Gen.zero neg) else pure (Gen.inf neg)
+
+/-- `PowPf.general` with the guards as integer comparisons -/
+def generalS (rm : UInt8) (oNeg neg : Bool) (oSig : U128) (oExp : Int16) (dSig : U128) (dExp : Int16) : Go.GoM Decimal :=
+  decomposed192.log (wf dSig dExp) >>= fun x0 =>
+    if x0.2.1.sig.toNat = 0 then pure (Gen.one neg)
+    else if x0.2.1.exp.toInt + oExp.toInt > 12322 then outV neg (oNeg != x0.1)
+    else decomposed192.mul x0.2.1 (wf oSig oExp) x0.2.2 >>= fun x1 =>
+      if x1.1.sig.toNat = 0 then pure (Gen.one neg)
+      else if x1.1.exp.toInt > 5 - (Nat.log 10 x1.1.sig.toNat : Int) then outV neg (oNeg != x0.1)
+      else decomposed192.epow x1.1 (Go.conv (Int64.ofNat (Nat.log 10 x1.1.sig.toNat)) : Int16) x1.2 >>= fun x2 =>
+        if x2.1.exp.toInt > 6169 then outV neg (oNeg != x0.1)
+        else if (oNeg != x0.1) = true then
+          decomposed192.rcp x2.1 x2.2 >>= fun x3 => genTail rm neg x3.1 (x3.2 * -1)
+        else genTail rm neg x2.1 x2.2
+
+theorem guard_sum' (a b : Int16) :
+    decide (((Go.conv a : Int64) + (Go.conv b : Int64)) > (12322 : Int64)) = decide (a.toInt + b.toInt > 12322) :=
+  decide_eq_decide.2 (by rw [← guard_sum a b, decide_eq_true_eq])
+
+theorem guard_log' (a : Int16) (s : U192) :
+    decide ((Go.conv a : Int64) > (5 : Int64) - Int64.ofNat (Nat.log 10 s.toNat))
+      = decide (a.toInt > 5 - (Nat.log 10 s.toNat : Int)) :=
+  decide_eq_decide.2 (by
+    have := guard_log a (Nat.log 10 s.toNat) (by have := log192_lt s; omega)
+    rw [← this, decide_eq_true_eq])
+
+theorem guard_6169 (e : Int16) : decide (e > (6169 : Int16)) = decide (e.toInt > 6169) :=
+  decide_eq_decide.2 (by rw [gt_iff_lt, Int16.lt_iff_toInt_lt]; simp)
+
+theorem general_eq (rm : UInt8) (oNeg neg : Bool) (oSig : U128) (oExp : Int16) (dSig : U128) (dExp : Int16) :
+    general rm oNeg neg oSig oExp dSig dExp = generalS rm oNeg neg oSig oExp dSig dExp := by
+  unfold general generalS
+  dsimp only
+  refine congrArg _ (funext fun x0 => ?_)
+  simp only [sig_zero_test, guard_sum', decide_eq_true_eq]
+  by_cases h1 : x0.2.1.sig.toNat = 0
+  · rw [if_pos h1, if_pos h1]
+  rw [if_neg h1, if_neg h1]
+  by_cases h2 : x0.2.1.exp.toInt + oExp.toInt > 12322
+  · rw [if_pos h2, if_pos h2]; rfl
+  rw [if_neg h2, if_neg h2]
+  show (decomposed192.mul x0.2.1 (wf oSig oExp) x0.2.2 >>= _) = _
+  refine congrArg _ (funext fun x1 => ?_)
+  by_cases h3 : x1.1.sig.toNat = 0
+  · rw [if_pos h3, if_pos h3]
+  rw [if_neg h3, if_neg h3, D128.Proofs.WordsWide.U192_log10_eq, RK.ok_bind]
+  have e4 : ((Go.conv x1.1.exp : Int64) > (5 : Int64) - Int64.ofNat (Nat.log 10 x1.1.sig.toNat))
+      ↔ x1.1.exp.toInt > 5 - (Nat.log 10 x1.1.sig.toNat : Int) := by
+    have := guard_log x1.1.exp (Nat.log 10 x1.1.sig.toNat) (by have := log192_lt x1.1.sig; omega)
+    rw [← this, decide_eq_true_eq]
+  by_cases h4 : x1.1.exp.toInt > 5 - (Nat.log 10 x1.1.sig.toNat : Int)
+  · rw [if_pos (e4.2 h4), if_pos h4]; rfl
+  rw [if_neg (fun hc => h4 (e4.1 hc)), if_neg h4, if_neg h3]
+  refine congrArg _ (funext fun x2 => ?_)
+  have e5 : (x2.1.exp > (6169 : Int16)) ↔ x2.1.exp.toInt > 6169 := by
+    rw [gt_iff_lt, Int16.lt_iff_toInt_lt]; simp
+  by_cases h5 : x2.1.exp.toInt > 6169
+  · rw [if_pos (e5.2 h5), if_pos h5]; rfl
+  rw [if_neg (fun hc => h5 (e5.1 hc)), if_neg h5]
+  unfold genTail
+  simp only [decide_eq_true_eq]
+
+/-- after `epow`: range test, optional reciprocal, final rounding -/
+def genAfterEpow (rm : UInt8) (neg sgn : Bool) (x2 : decomposed192 × Int8) : Go.GoM Decimal :=
+  if x2.1.exp.toInt > 6169 then outV neg sgn
+  else if sgn = true then
+    decomposed192.rcp x2.1 x2.2 >>= fun x3 => genTail rm neg x3.1 (x3.2 * -1)
+  else genTail rm neg x2.1 x2.2
+
+/-- after `mul`: zero test, range test, `epow` -/
+def genAfterMul (rm : UInt8) (neg sgn : Bool) (x1 : decomposed192 × Int8) : Go.GoM Decimal :=
+  if x1.1.sig.toNat = 0 then pure (Gen.one neg)
+  else if x1.1.exp.toInt > 5 - (Nat.log 10 x1.1.sig.toNat : Int) then outV neg sgn
+  else decomposed192.epow x1.1 (Go.conv (Int64.ofNat (Nat.log 10 x1.1.sig.toNat)) : Int16) x1.2 >>=
+    genAfterEpow rm neg sgn
+
+/-- after `log`: zero test, range test, `mul` -/
+def genAfterLog (rm : UInt8) (oNeg neg : Bool) (oSig : U128) (oExp : Int16) (x0 : Bool × decomposed192 × Int8) :
+    Go.GoM Decimal :=
+  if x0.2.1.sig.toNat = 0 then pure (Gen.one neg)
+  else if x0.2.1.exp.toInt + oExp.toInt > 12322 then outV neg (oNeg != x0.1)
+  else decomposed192.mul x0.2.1 (wf oSig oExp) x0.2.2 >>= genAfterMul rm neg (oNeg != x0.1)
+
+theorem generalS_eq (rm : UInt8) (oNeg neg : Bool) (oSig : U128) (oExp : Int16) (dSig : U128) (dExp : Int16) :
+    generalS rm oNeg neg oSig oExp dSig dExp
+      = decomposed192.log (wf dSig dExp) >>= genAfterLog rm oNeg neg oSig oExp := by
+  unfold generalS
+  refine congrArg _ (funext fun x0 => ?_)
+  unfold genAfterLog
+  by_cases h1 : x0.2.1.sig.toNat = 0
+  · rw [if_pos h1, if_pos h1]
+  rw [if_neg h1, if_neg h1]
+  by_cases h2 : x0.2.1.exp.toInt + oExp.toInt > 12322
+  · rw [if_pos h2, if_pos h2]
+  rw [if_neg h2, if_neg h2]
+  refine congrArg _ (funext fun x1 => ?_)
+  unfold genAfterMul
+  by_cases h3 : x1.1.sig.toNat = 0
+  · rw [if_pos h3, if_pos h3]
+  rw [if_neg h3, if_neg h3]
+  by_cases h4 : x1.1.exp.toInt > 5 - (Nat.log 10 x1.1.sig.toNat : Int)
+  · rw [if_pos h4, if_pos h4]
+  rw [if_neg h4, if_neg h4]
+  refine congrArg _ (funext fun x2 => ?_)
+  unfold genAfterEpow
+  rfl
+
+/-! ### evaluating the staged form along the path -/
+
+theorem gS_log {rm : UInt8} {oNeg neg : Bool} {oSig : U128} {oExp : Int16} {dSig : U128} {dExp : Int16}
+    {x0 : Bool × decomposed192 × Int8}
+    (hlog : decomposed192.log (wf dSig dExp) = .ok x0) :
+    general rm oNeg neg oSig oExp dSig dExp = genAfterLog rm oNeg neg oSig oExp x0 := by
+  rw [general_eq, generalS_eq, hlog]; exact RK.ok_bind _ _
+
+theorem gAL_one {rm : UInt8} {oNeg neg : Bool} {oSig : U128} {oExp : Int16} {inv : Bool} {L : decomposed192}
+    {tL : Int8} (h : L.sig.toNat = 0) :
+    genAfterLog rm oNeg neg oSig oExp (inv, L, tL) = pure (Gen.one neg) := by
+  unfold genAfterLog; dsimp only; rw [if_pos h]
+
+theorem gAL_out {rm : UInt8} {oNeg neg : Bool} {oSig : U128} {oExp : Int16} {inv : Bool} {L : decomposed192}
+    {tL : Int8} (h : L.sig.toNat ≠ 0) (h2 : L.exp.toInt + oExp.toInt > 12322) :
+    genAfterLog rm oNeg neg oSig oExp (inv, L, tL) = outV neg (oNeg != inv) := by
+  unfold genAfterLog; dsimp only; rw [if_neg h, if_pos h2]
+
+theorem gAL_mul {rm : UInt8} {oNeg neg : Bool} {oSig : U128} {oExp : Int16} {inv : Bool} {L : decomposed192}
+    {tL : Int8} {x1 : decomposed192 × Int8} (h : L.sig.toNat ≠ 0) (h2 : ¬ L.exp.toInt + oExp.toInt > 12322)
+    (hmul : decomposed192.mul L (wf oSig oExp) tL = .ok x1) :
+    genAfterLog rm oNeg neg oSig oExp (inv, L, tL) = genAfterMul rm neg (oNeg != inv) x1 := by
+  unfold genAfterLog; dsimp only; rw [if_neg h, if_neg h2, hmul]; exact RK.ok_bind _ _
+
+theorem gAM_out {rm : UInt8} {neg sgn : Bool} {res : decomposed192} {t1 : Int8} (h : res.sig.toNat ≠ 0)
+    (h2 : res.exp.toInt > 5 - (Nat.log 10 res.sig.toNat : Int)) :
+    genAfterMul rm neg sgn (res, t1) = outV neg sgn := by
+  unfold genAfterMul; dsimp only; rw [if_neg h, if_pos h2]
+
+theorem gAM_epow {rm : UInt8} {neg sgn : Bool} {res : decomposed192} {t1 : Int8} {z : decomposed192 × Int8}
+    (h : res.sig.toNat ≠ 0) (h2 : ¬ res.exp.toInt > 5 - (Nat.log 10 res.sig.toNat : Int))
+    (hz : decomposed192.epow res (Go.conv (Int64.ofNat (Nat.log 10 res.sig.toNat)) : Int16) t1 = .ok z) :
+    genAfterMul rm neg sgn (res, t1) = genAfterEpow rm neg sgn z := by
+  unfold genAfterMul; dsimp only; rw [if_neg h, if_neg h2, hz]; exact RK.ok_bind _ _
+
+theorem gAE_out {rm : UInt8} {neg sgn : Bool} {z : decomposed192 × Int8} (h : z.1.exp.toInt > 6169) :
+    genAfterEpow rm neg sgn z = outV neg sgn := by
+  unfold genAfterEpow; rw [if_pos h]
+
+theorem gAE_tail {rm : UInt8} {neg sgn : Bool} {z : decomposed192 × Int8} (h : ¬ z.1.exp.toInt > 6169) :
+    genAfterEpow rm neg sgn z =
+      if sgn = true then decomposed192.rcp z.1 z.2 >>= fun x3 => genTail rm neg x3.1 (x3.2 * -1)
+      else genTail rm neg z.1 z.2 := by
+  unfold genAfterEpow; rw [if_neg h]
+
+theorem outV_ok {neg sgn : Bool} {r : Decimal} (h : outV neg sgn = .ok r) :
+    r = if sgn = true then Gen.zero neg else Gen.inf neg := by
+  unfold outV at h
+  cases sgn
+  · have : Gen.inf neg = r := by injection h
+    rw [← this]; rfl
+  · have : Gen.zero neg = r := by injection h
+    rw [← this]; rfl
 
 end PowAcc
